@@ -4,6 +4,7 @@
 static void (*srv_tx_hook)(sim_tx_t *tx, const sdns_query_t *q, const uint8_t *msg, size_t len);
 static int (*srv_cookie_hook)(int srvidx, const sdns_query_t *q, int is_tcp, int *action, uint8_t *ck, size_t *cklen);
 static void (*srv_frame_hook)(int srvidx, int fd, int is_tcp, const uint8_t *msg, size_t len);
+static void (*srv_sent_hook)(int srvidx, int fd, int is_tcp, int txidx, int action, int64_t delay_us); /* genuine reply scheduled */
 
 
 static uint32_t sim_new_serial(int srv, int fd, uint16_t qid, int action, int forged, uint32_t deviation, int txidx)
@@ -71,7 +72,7 @@ static int srv_pick_weighted(const uint16_t *w)
 static void srv_build_answer_rrs(sdns_out_t *o, const sdns_query_t *q, uint32_t serial, int nrec, uint32_t ttl,
                                  int cname_chain, int other_family, uint16_t cls)
 {
-  int      k;
+  int      k, kk;
   char     owner[128];
   int      have_owner = 0;
   uint16_t qt         = q->qtype;
@@ -90,8 +91,12 @@ static void srv_build_answer_rrs(sdns_out_t *o, const sdns_query_t *q, uint32_t 
   if (qt == SDNS_T_CNAME) {
     return;
   }
-  for (k = 0; k < nrec; k++) {
+  /* other_family: 0 none; 1 wanted/other alternating; 2 all records of the other family first, then the wanted ones;
+   * 3 the wanted ones first (runs of consecutive foreign records) */
+  for (kk = 0; kk < nrec * ((other_family >= 2 && (qt == SDNS_T_A || qt == SDNS_T_AAAA)) ? 2 : 1); kk++) {
     size_t at;
+    int    round = kk / nrec;
+    k            = kk % nrec;
     if (o->len > 65000) {
       break; /* a DNS message cannot exceed 65535 bytes */
     }
@@ -101,8 +106,12 @@ static void srv_build_answer_rrs(sdns_out_t *o, const sdns_query_t *q, uint32_t 
         {
           int pass;
           int reps = (sim_answer_dup_every && (k % sim_answer_dup_every) == 0) ? 2 : 1;
-          for (pass = 0; pass < (other_family ? 2 : 1) * reps; pass++) {
-            uint16_t t  = (pass % (other_family ? 2 : 1)) == 0 ? qt : (qt == SDNS_T_A ? SDNS_T_AAAA : SDNS_T_A);
+          for (pass = 0; pass < (other_family == 1 ? 2 : 1) * reps; pass++) {
+            uint16_t other = (uint16_t)(qt == SDNS_T_A ? SDNS_T_AAAA : SDNS_T_A);
+            uint16_t t     = (pass % (other_family == 1 ? 2 : 1)) == 0 ? qt : other;
+            if (other_family >= 2) {
+              t = ((other_family == 2) == (round == 0)) ? other : qt;
+            }
             uint16_t rc = (sim_answer_foreign_class_every && (k % sim_answer_foreign_class_every) == 1) ? 3 : cls;
             at          = sdns_rr_begin(o, 1, have_owner ? owner : NULL, 12, t, rc, ttl);
             if (t == SDNS_T_A) {
@@ -340,6 +349,9 @@ static uint32_t srv_build(int srvidx, int fd, const sdns_query_t *q, const srv_p
         qq.qtype        = q->qtype;
         srv_build_answer_rrs(o, &qq, serial, action == SA_TC ? 1 : pl->nrec, pl->ttl, pl->cname_chain,
                              pl->other_family, qclass);
+        if (sim_answer_auth_soa_ttl && (action == SA_ANSWER || action == SA_DUP)) {
+          srv_soa_authority(o, serial, sim_answer_auth_soa_ttl, sim_answer_auth_soa_ttl);
+        }
       }
       break;
     case SA_NXDOMAIN:
@@ -473,6 +485,12 @@ static void srv_receive(int srvidx, int fd, int is_tcp, const uint8_t *msg, size
     return;
   }
 
+  if (!q.wellformed) {
+    /* decodable question, but the message does not end where its records end (e.g. two messages glued into one
+     * datagram, a stray length prefix, a record cut short) */
+    vh_violation(is_tcp ? "frame:malformed-transmission:tcp" : "frame:malformed-transmission:udp",
+                 "server %d received %zu octets on descriptor %d for '%s' that are not exactly one well-formed query", srvidx, len, fd, q.qname);
+  }
   memset(&pl, 0, sizeof(pl));
   r = srv_match_rule(s, &q, &ridx);
   if (r) {
@@ -570,6 +588,15 @@ static void srv_receive(int srvidx, int fd, int is_tcp, const uint8_t *msg, size
     sim_note("zerolen_next_to_reply");
   }
   srv_send_pkt(srvidx, fd, is_tcp, srv_out.b, srv_out.len, serial, d, pl.action == SA_WRONGADDR ? -1 : srvidx);
+  if (is_tcp && s->tcp_close_after_answer) {
+    /* one answer per connection (a server that does not keep streams open): the close follows the answer bytes
+     * at once or a little later - either way the answer was sent in full and must be used */
+    sim_ev_add(sim_now_us + d + sim_fin_delay_us, EV_SRV_CLOSE, fd, 0, NULL);
+    sim_note("tcp_server_closes_after_answer");
+  }
+  if (srv_sent_hook) {
+    srv_sent_hook(srvidx, fd, is_tcp, txidx, pl.action, d);
+  }
   if (pl.action == SA_DUP) {
     srv_plan_t p2 = pl;
     p2.action     = SA_ANSWER;
